@@ -15,38 +15,55 @@ constexpr int D = DIM;
 #define MEMSZ2 40
 #endif
 #define NNODE 12
-struct Node { long kind, count, stride, old, extent, nelem, committed, freed, used_after_free; };   // kind: 1 hvector(blocklen 1), 2 resized
+// One node per derived datatype: count blocks of blocklen copies of `old`, block k at byte offset k*stride (MPI_Type_create_hvector; MPI_Type_vector
+// and MPI_Type_contiguous are special cases), or `old` with its extent replaced (MPI_Type_create_resized with lb = 0; MPI_Type_dup keeps the extent).
+// MPI's typemap semantics: extent(hvector) = (count-1)*stride + blocklen*extent(old) for non-negative strides; the e-th basic element of a node lies at
+// (e / (blocklen*n_old))*stride + ((e / n_old) % blocklen)*extent(old) + displacement_old(e % n_old).
+struct Node { long kind, count, blocklen, stride, old, extent, nelem, committed, freed, used_after_free; };   // kind: 1 hvector family, 2 resized / dup
 extern "C" {
 ELEM g_buf[MEMSZ2];
-Node g_node[NNODE]; long g_nnode; long g_bad;
-static long node_of(MPI_Datatype h) { return (reinterpret_cast<char*>(h) - reinterpret_cast<char*>(g_node)) / static_cast<long>(sizeof(Node)); }
+Node g_node[NNODE]; long g_nnode; long g_bad; long g_unmodelled;
+static long node_of(MPI_Datatype h) {   // by comparison, not by pointer difference / sizeof(Node)
+  long r = 0;
+#pragma unroll
+  for(int k = 0; k < NNODE; ++k) if(reinterpret_cast<void*>(h) == static_cast<void*>(&g_node[k])) r = k;
+  return r; }
 static bool is_node(MPI_Datatype h) { return vf_within(h, g_node, sizeof g_node); }
 static MPI_Datatype handle(long k) { return reinterpret_cast<MPI_Datatype>(&g_node[k]); }
+static long basic_size(MPI_Datatype dt) { return (dt == MPI_INT || dt == MPI_FLOAT) ? 4 : (dt == MPI_DOUBLE ? 8 : 0); }
 static long nelem_of(MPI_Datatype h) { return is_node(h) ? g_node[node_of(h)].nelem : 1; }
-static void touch(MPI_Datatype h) { if(is_node(h) && g_node[node_of(h)].freed) { g_node[node_of(h)].used_after_free = 1; g_bad = 1; } }
-int MPI_Type_size(MPI_Datatype dt, int* size) { touch(dt); *size = (dt == MPI_INT || dt == MPI_FLOAT) ? 4 : (dt == MPI_DOUBLE ? 8 : 0); if(*size == 0) g_bad = 1; return MPI_SUCCESS; }
+static long extent_of(MPI_Datatype h) { return is_node(h) ? g_node[node_of(h)].extent : basic_size(h); }
+static void touch(MPI_Datatype h) { if(is_node(h)) { if(g_node[node_of(h)].freed) { g_node[node_of(h)].used_after_free = 1; g_bad = 1; } } else if(basic_size(h) == 0) g_unmodelled = 1; }
+static int new_node(long kind, long count, long blocklen, long stride, MPI_Datatype old, long extent, MPI_Datatype* nw) {
+  touch(old); if(g_nnode >= NNODE) g_unmodelled = 1;
+  if(count < 0 || blocklen < 0 || stride < 0) g_unmodelled = 1;   // negative strides / counts: outside this model (reported as inconclusive, not as a violation)
+  long k = g_nnode < NNODE ? g_nnode : NNODE - 1; g_nnode = k + 1;
+  g_node[k] = Node{kind, count, blocklen, stride, is_node(old) ? node_of(old) : -1, extent, count * blocklen * nelem_of(old), 0, 0, 0}; *nw = handle(k); return MPI_SUCCESS; }
+int MPI_Type_size(MPI_Datatype dt, int* size) { touch(dt); if(is_node(dt)) { *size = static_cast<int>(g_node[node_of(dt)].nelem) * static_cast<int>(sizeof(ELEM)); } else { *size = (dt == MPI_INT || dt == MPI_FLOAT) ? 4 : (dt == MPI_DOUBLE ? 8 : 0); } return MPI_SUCCESS; }
+static long hv_extent(long count, long blocklen, long stride, long ext_old) { return count > 0 ? count * stride - stride + blocklen * ext_old : 0; }
 int MPI_Type_create_hvector(int count, int blocklen, MPI_Aint stride, MPI_Datatype old, MPI_Datatype* nw) {
-  touch(old); if(blocklen != 1 || g_nnode >= NNODE) g_bad = 1;
-  long k = g_nnode < NNODE ? g_nnode : NNODE - 1; g_nnode = k + 1;
-  g_node[k] = Node{1, count, stride, is_node(old) ? node_of(old) : -1, 0, count * nelem_of(old), 0, 0, 0}; *nw = handle(k); return MPI_SUCCESS; }
-int MPI_Type_create_resized(MPI_Datatype old, MPI_Aint lb, MPI_Aint extent, MPI_Datatype* nw) {
-  touch(old); if(lb != 0 || g_nnode >= NNODE) g_bad = 1;
-  long k = g_nnode < NNODE ? g_nnode : NNODE - 1; g_nnode = k + 1;
-  g_node[k] = Node{2, 1, 0, is_node(old) ? node_of(old) : -1, extent, nelem_of(old), 0, 0, 0}; *nw = handle(k); return MPI_SUCCESS; }
-int MPI_Type_commit(MPI_Datatype* dt) { touch(*dt); if(is_node(*dt)) g_node[node_of(*dt)].committed = 1; else g_bad = 1; return MPI_SUCCESS; }
+  long const c = count, b = blocklen, st = stride; return new_node(1, c, b, st, old, hv_extent(c, b, st, extent_of(old)), nw); }
+int MPI_Type_vector(int count, int blocklen, int stride, MPI_Datatype old, MPI_Datatype* nw) {
+  long const c = count, b = blocklen, st = static_cast<long>(stride) * extent_of(old); return new_node(1, c, b, st, old, hv_extent(c, b, st, extent_of(old)), nw); }
+int MPI_Type_contiguous(int count, MPI_Datatype old, MPI_Datatype* nw) { long const c = count; return new_node(1, c, 1, extent_of(old), old, c * extent_of(old), nw); }
+int MPI_Type_create_resized(MPI_Datatype old, MPI_Aint lb, MPI_Aint extent, MPI_Datatype* nw) { if(lb != 0) g_unmodelled = 1; return new_node(2, 1, 1, 0, old, extent, nw); }
+int MPI_Type_dup(MPI_Datatype old, MPI_Datatype* nw) { return new_node(2, 1, 1, 0, old, extent_of(old), nw); }
+int MPI_Type_commit(MPI_Datatype* dt) { touch(*dt); if(is_node(*dt)) g_node[node_of(*dt)].committed = 1; return MPI_SUCCESS; }   // committing a predefined type is harmless
 int MPI_Type_free(MPI_Datatype* dt) { if(is_node(*dt)) { if(g_node[node_of(*dt)].freed) g_bad = 1; g_node[node_of(*dt)].freed += 1; } else g_bad = 1; *dt = MPI_DATATYPE_NULL; return MPI_SUCCESS; }
-int MPI_Type_vector(int, int, int, MPI_Datatype, MPI_Datatype*) { g_bad = 1; return MPI_SUCCESS; }
-int MPI_Type_dup(MPI_Datatype, MPI_Datatype*) { g_bad = 1; return MPI_SUCCESS; }
 }
 namespace mpi = multi::mpi;
-// byte displacement of the e-th basic element of the message (count repetitions of top): MPI typemap semantics
-static L typemap_disp(long top, L e) {
-  L ne = g_node[top].nelem; L disp = (e / ne) * g_node[top].extent; L r = e % ne; long t = top;
+// byte displacement of the e-th basic element of the message (count repetitions of dt at multiples of its extent): MPI typemap semantics
+static L typemap_disp(MPI_Datatype dt, L e) {
+  if(!is_node(dt)) return e * basic_size(dt);
+  long t = node_of(dt);
+  L ne = g_node[t].nelem; L disp = (e / ne) * g_node[t].extent; L r = e % ne;
 #pragma unroll
-  for(int depth = 0; depth < 2 * D + 2; ++depth) {
+  for(int depth = 0; depth < 2 * D + 3; ++depth) {
     if(t < 0) break;
-    if(g_node[t].kind == 2) { t = g_node[t].old; }
-    else { L sub = g_node[t].old >= 0 ? g_node[g_node[t].old].nelem : 1; disp += (r / sub) * g_node[t].stride; r = r % sub; t = g_node[t].old; }
+    L const n_old = g_node[t].old >= 0 ? g_node[g_node[t].old].nelem : 1;
+    L const ext_old = g_node[t].old >= 0 ? g_node[g_node[t].old].extent : static_cast<L>(sizeof(ELEM));
+    L const per_block = g_node[t].blocklen * n_old;
+    disp += (r / per_block) * g_node[t].stride + ((r % per_block) / n_old) * ext_old; r = r % n_old; t = g_node[t].old;
   }
   return disp;
 }
@@ -55,11 +72,12 @@ VF_HARNESS(message_denotes_elements) {
   auto v = view_of<D, ELEM>(s, g_buf);
   L const ne = spec_num_elements(s);
   { mpi::message<> msg(v.elements());
+    vf_assert(g_unmodelled == 0, "MODEL every MPI datatype call is inside the typemap model (hvector / vector / contiguous / resized with lb 0 / dup, non-negative strides)");
     vf_assert(msg.buffer() == static_cast<void*>(g_buf + s.origin), "buffer is the first viewed element");
-    vf_assert(is_node(msg.datatype()), "datatype is a created handle");
-    long top = node_of(msg.datatype());
-    vf_assert(g_node[top].committed == 1 && g_node[top].freed == 0, "the datatype handed out is committed (and not freed) while the message lives");
-    vf_assert(static_cast<L>(msg.count()) * g_node[top].nelem == ne, "count x (elements per datatype) equals num_elements: no more, no fewer");
+    MPI_Datatype const dt = msg.datatype();
+    if(is_node(dt)) vf_assert(g_node[node_of(dt)].committed == 1 && g_node[node_of(dt)].freed == 0, "the datatype handed out is committed (and not freed) while the message lives");
+    else vf_assert(basic_size(dt) == static_cast<long>(sizeof(ELEM)), "a predefined datatype handed out is the element's");
+    vf_assert(static_cast<L>(msg.count()) * nelem_of(dt) == ne, "count x (elements per datatype) equals num_elements: no more, no fewer");
     L k = vf_nondet_long(); vf_assume(0 <= k && k < ne);
     // k-th element in canonical order (last index fastest)
     L idx[D]; L rem = k;
@@ -68,8 +86,8 @@ VF_HARNESS(message_denotes_elements) {
     L want = 0;
 #pragma unroll
     for(int j = 0; j < D; ++j) want += idx[j] * s.d[j].stride;
-    vf_assert(typemap_disp(top, k) == want * static_cast<L>(sizeof(ELEM)), "the k-th element of the message is the k-th element of the view in canonical order");
-    vf_assert(g_bad == 0, "no unexpected MPI call, no handle used after free");
+    vf_assert(typemap_disp(dt, k) == want * static_cast<L>(sizeof(ELEM)), "the k-th element of the message is the k-th element of the view in canonical order");
+    vf_assert(g_bad == 0, "no handle used after free, none freed twice");
   }
   bool all_freed_once = true;
 #pragma unroll
